@@ -70,6 +70,11 @@ func (c *Ctx) Script(sel map[int]bool) string {
 			fmt.Fprintf(&b, "(assert (forall ((m Ref)) (! (>= (select %s_0 m) 0) :pattern ((select %s_0 m)))))\n", h, h)
 		}
 	}
+	for _, h := range []string{HDefW, HDefR} {
+		if _, ok := c.R.heaps[h]; ok {
+			fmt.Fprintf(&b, "(assert (= %s_0 ((as const (Array Ref Int)) 0)))\n", h)
+		}
+	}
 	b.WriteString(c.implementsAxioms())
 	body := c.buf.String()
 	if sel == nil {
@@ -174,6 +179,10 @@ func (c *Ctx) runTop() {
 		if v.Sort == "Ref" {
 			c.assume(st, Not(Eq(v, Nil)))
 		}
+		if pt, ok := under(p.Type()).(*types.Pointer); ok {
+			// captured variable: no callee can write it
+			c.stable = append(c.stable, stableCell{addr: v, typ: pt.Elem()})
+		}
 		fr.freev = append(fr.freev, v)
 	}
 	// method receivers of pointer type are non-nil only if the contract says so
@@ -202,6 +211,13 @@ func (c *Ctx) runTop() {
 	c.axioms(st)
 	fr.run(st)
 	c.exitChecks(fr, ct)
+	if ct != nil && !c.scan {
+		for name := range ct.AtCalls {
+			if c.atCallSeen[name] == 0 {
+				c.unsupported("at call %s: no such call in %s", name, ct.Func)
+			}
+		}
+	}
 }
 
 // axioms asserts the global axioms of the spec files (listed in evidence).
@@ -472,7 +488,11 @@ func (fr *frame) contractCall(ct *Contract, callee *ssa.Function, cc *ssa.CallCo
 			c.unsupported("requires %q of %s at call: %v", cl.Text, name, err)
 			continue
 		}
-		c.oblige(st, "pre", name+": "+cl.Text, t, pos)
+		if c.Opt.Safety {
+			c.oblige(st, "pre", name+": "+cl.Text, t, pos)
+		} else {
+			c.assume(st, t) // discipline-only sweeps: callee preconditions are checked where the caller is under full contract
+		}
 	}
 	// effects
 	if !ct.HasModifies || ct.ModAll {
